@@ -205,7 +205,18 @@ class Interp:
                     except _Break:
                         break
             elif isinstance(s, ast.Expr) and isinstance(s.value, ast.Yield):
-                self.yields.append(self.ev(s.value.value) if s.value.value is not None else None)
+                yv = self.ev(s.value.value) if s.value.value is not None else None
+                self.yields.append(yv)
+                hook = self.env.get("__on_yield__")
+                if callable(hook):  # a rule observes (or disturbs) the state at the suspension point of a context manager
+                    try:
+                        hook(yv)
+                    except (_Continue, _Break, _Raised, _Return, AnalysisError):
+                        raise
+                    except self.behaviours as ex:
+                        rz = _Raised(type(ex).__name__)
+                        rz.exc = ex
+                        raise rz
             elif isinstance(s, ast.Expr) and isinstance(s.value, ast.YieldFrom):
                 self.yields.extend(list(self.ev(s.value.value)))
             elif isinstance(s, ast.Expr):
@@ -256,6 +267,13 @@ class Interp:
                         self.env[nm] = getattr(mod, a.name) if isinstance(s, ast.ImportFrom) else importlib.import_module(a.name.split(".")[0])
                         continue
                     raise AnalysisError(f"tabulation: no stand-in for imported name {a.asname or a.name}")
+            elif isinstance(s, ast.Try) and s.finalbody:
+                inner = ast.Try(body=s.body, handlers=s.handlers, orelse=s.orelse, finalbody=[])
+                ast.copy_location(inner, s)
+                try:
+                    self.run([inner] if (s.handlers or s.orelse) else s.body)
+                finally:
+                    self.run(s.finalbody)
             elif isinstance(s, ast.Try) and not s.finalbody:
                 try:
                     self.run(s.body)
